@@ -233,7 +233,9 @@ def run(ctx):
     ctx.rule = ("short runs (grid 16/32, 6-8 steps, outstep 2/3, SavePhaseSpace 1, wake on, tracking on, renormalisation "
                 "off/initial/periodic); SIGINT raised by the hook at the i-th executed point, for EVERY point of the run (set-up included), a third "
                 "(quick, one configuration) / a quarter (thorough, three configurations) of them also with repeated signals; "
-                "thorough also asynchronous kill -INT at random times; "
+                "thorough also asynchronous kill -INT at random times; four ways of leaving the set-up early (nothing to do, unknown output type, option "
+                "error, results file cannot be created), each undisturbed and with SIGINT at set-up points; the model executes the generated "
+                "set-up skeleton under the environment inferred from the run's own label trace; "
                 "non-trivial = the interrupt arrives after start-up or cuts the run short and records were compared")
     coq = vp_coq.full_check("C14", ctx, fams=("driver",))
     tg = ctx.build(harness=("h5cat",), want_binary=True)
